@@ -51,6 +51,34 @@ Definition eval0 (defs : nat -> option (nat * expr)) (mods : frame) (fuel : nat)
 Definition exec0 (defs : nat -> option (nat * expr)) (fuel : nat) (ss : list stmt) (s : state W0) :=
   exec_block W0 ops0 prim0 heap_un0 heap_bin0 heap_slice0 dict_check0 ref_truth0 ref_iter0 set_index0 defs fuel ss s.
 
+(* an instance in which building a dict fails the way it does in Starlark: a key that is (or contains) a list or a dict is
+   not hashable; a key that occurs twice in a display is refused.  vs = k1; v1; k2; v2 ... *)
+Fixpoint hashable (v : value) : bool :=
+  match v with
+  | VList _ | VFList _ | VDict _ | VRef _ => false
+  | VTuple l => (fix go (l : list value) : bool := match l with [] => true | x :: t => hashable x && go t end) l
+  | _ => true
+  end.
+
+Definition scalar_eqb (a b : value) : bool :=
+  match a, b with
+  | VNone, VNone => true | VBool x, VBool y => Bool.eqb x y | VInt x, VInt y => Z.eqb x y | VStr x, VStr y => String.eqb x y
+  | _, _ => false
+  end.
+
+Fixpoint dict_check1_go (seen : list value) (vs : list value) : option string :=
+  match vs with
+  | k :: _ :: rest =>
+      if negb (hashable k) then Some ("Value of type `" ++ type_of k ++ "` is not hashable")
+      else if existsb (scalar_eqb k) seen then Some "Dictionary key repeated"
+      else dict_check1_go (k :: seen) rest
+  | _ => None
+  end.
+Definition dict_check1 : list value -> option string := dict_check1_go [].
+
+Definition eval1 (defs : nat -> option (nat * expr)) (mods : frame) (fuel : nat) (fr : frame) (e : expr) (w : W0) :=
+  eval W0 ops0 prim0 heap_un0 heap_bin0 heap_slice0 dict_check1 ref_truth0 defs mods fuel fr e w.
+
 Definition no_defs : nat -> option (nat * expr) := fun _ => None.
 Definition no_frozen : nat -> option value := fun _ => None.
 
